@@ -27,17 +27,29 @@ pub fn run_parallel<S: Send + Sync + serde::Serialize + 'static>(
     std::fs::create_dir_all(&out_dir).unwrap();
     let specs = Arc::new(specs);
     let n = specs.len();
+    // --only k: run nothing but spec k (the supervisor in checks/common.py narrows down which run killed the process)
+    let only: Option<usize> = opt.get("only").and_then(|s| s.parse().ok());
+    let jobs = if only.is_some() { 1 } else { jobs };
     let mut handles = vec![];
     for j in 0..jobs {
         let specs = specs.clone();
         let out_dir = out_dir.clone();
         handles.push(std::thread::spawn(move || {
+            use std::io::{Seek, SeekFrom};
             let mut tf = std::io::BufWriter::new(std::fs::File::create(format!("{out_dir}/trace_{j}.ndjson")).unwrap());
             let mut cf = std::io::BufWriter::new(std::fs::File::create(format!("{out_dir}/captured_{j}.hex")).unwrap());
             let mut sf = std::io::BufWriter::new(std::fs::File::create(format!("{out_dir}/specs_{j}.jsonl")).unwrap());
+            // the run this thread is in, written (unbuffered) before the run starts: survives an abort of the process
+            let mut pf = std::fs::File::create(format!("{out_dir}/current_{j}")).unwrap();
             let mut events = 0usize;
-            let mut k = j;
+            let mut k = only.unwrap_or(j);
             while k < n {
+                let _ = pf.seek(SeekFrom::Start(0));
+                let _ = pf.write_all(format!("{k:>12}\n").as_bytes());
+                if only.is_some() {
+                    let mut of = std::fs::File::create(format!("{out_dir}/only_spec.json")).unwrap();
+                    let _ = of.write_all(serde_json::to_string(&specs[k]).unwrap().as_bytes());
+                }
                 let mut ev = vec![];
                 let cap = f(k, &specs[k], &mut ev);
                 writeln!(sf, "{}", serde_json::json!({"run": k, "spec": &specs[k]})).unwrap();
@@ -50,8 +62,13 @@ pub fn run_parallel<S: Send + Sync + serde::Serialize + 'static>(
                     let h: String = c.iter().map(|b| format!("{b:02x}")).collect();
                     writeln!(cf, "{h}").unwrap();
                 }
+                if only.is_some() {
+                    break;
+                }
                 k += jobs;
             }
+            let _ = pf.seek(SeekFrom::Start(0));
+            let _ = pf.write_all(format!("{:>12}\n", "done").as_bytes());
             events
         }));
     }
